@@ -704,6 +704,34 @@ class Extractor:
                         n_self += 1
                 self.log.rw('R7', rel, line0, 'fn %s(mut self, ..) { B }' % spec.name,
                             'fn %s(self, ..) { let mut this = self; B[self := this] }  (%d occurrences)' % (spec.name, n_self))
+        # rule R6: Verus' for-loops do not support `continue`.  Inside a loop body
+        #   `let P = E else { continue };  REST`   ->  `if let P = E { REST }`
+        #   `if C { continue; }  REST`             ->  `if C {} else { REST }`
+        # (REST = everything up to the end of the enclosing block; the `continue` must be the whole block)
+        if has_body and not spec.external:
+            for rx, kind6 in ((re.compile(r'\blet\s+([^;{}]*?)\s+else\s*\{\s*continue\s*;?\s*\}\s*;'), 'letelse'),
+                              (re.compile(r'\bif\s+([^;{}]*?)\s*\{\s*continue\s*;\s*\}'), 'ifcont')):
+                for m6 in rx.finditer(text, body_open):
+                    if not mask[m6.start()]:
+                        continue
+                    # closing brace of the enclosing block
+                    depth, j = 0, m6.end()
+                    while j < len(text):
+                        if mask[j]:
+                            if text[j] in '{([':
+                                depth += 1
+                            elif text[j] in '})]':
+                                if depth == 0:
+                                    break
+                                depth -= 1
+                        j += 1
+                    if kind6 == 'letelse':
+                        rep = 'if let %s {' % m6.group(1)
+                    else:
+                        rep = 'if %s {} else {' % m6.group(1)
+                    edits.append((m6.start(), m6.end() - m6.start(), rep, False))
+                    edits.append((j, 0, '} ', False))
+                    self.log.rw('R6', rel, line0 + text.count('\n', 0, m6.start()), norm(m6.group(0)), rep + ' <rest of block> }')
         if kind == 'twinfn' and spec.twin_as:
             m = re.search(r'\bfn\s+' + re.escape(spec.name) + r'\b', text)
             edits.append((m.start(), m.end() - m.start(), 'fn ' + spec.twin_as, False))
